@@ -7,6 +7,7 @@ import (
 	"fmt"
 	"math"
 	"os"
+	"os/exec"
 	"strings"
 
 	"golang.org/x/perf/benchfmt"
@@ -373,6 +374,39 @@ func apiCorpus() {
 	})
 }
 
+// fmtCorpus: values at the edges of the %v rules (powers of ten and their float neighbours,
+// powers of two, the %e/%f thresholds), so that Spec.FmtFloat is compared with Go's fmt there.
+func fmtCorpus() {
+	var all []float64
+	for k := -323; k <= 308; k += 3 {
+		f := math.Pow(10, float64(k))
+		all = append(all, f, math.Nextafter(f, 0), math.Nextafter(f, math.Inf(1)))
+	}
+	for k := -1074; k <= 1023; k += 13 {
+		f := math.Ldexp(1, k)
+		all = append(all, f, -math.Nextafter(f, 0), math.Nextafter(f, math.Inf(1)))
+	}
+	all = append(all, 99999.5, 999999.5, 999999.9999999999, 1000000, 0.0001, 0.00009999999999999999, 0.000099999999999999991,
+		1e21, 1e22, 1e23, 8.41e21, 5e-324, 1e-323, 2.2250738585072014e-308, 9007199254740992, 9007199254740993, 0.5, 0.25, 1.0/3, 2.0/3,
+		4.35, 0.285, 1.005, 1e15 + 0.5, 123456.7, 1234567.8, 12345678.9)
+	for i := 0; i < len(all); i += 40 {
+		j := i + 40
+		if j > len(all) {
+			j = len(all)
+		}
+		chunk := all[i:j]
+		run("api", func(c *caseB) {
+			c.tag("corpus")
+			c.tag("fmtedge")
+			var vs []benchfmt.Value
+			for _, f := range chunk {
+				vs = append(vs, benchfmt.Value{Value: f, Unit: "widgets"})
+			}
+			c.write(&benchfmt.Result{Name: benchfmt.Name("Fmt"), Iters: 1, Values: vs})
+		})
+	}
+}
+
 // ---------------------------------------------------------------- texts through the real reader
 
 var textValues = []string{"1", "x", "x y", "linux", "v:1", "é", "\xff", "Benchmark", ":", "x\ry", "a  ", "v1", "v2"}
@@ -502,6 +536,16 @@ func runFilter(query string, names []string, contents [][]byte, paths []string) 
 		if err := files.Err(); err != nil {
 			panic(err)
 		}
+		// the same run through the BUILT cmd/benchfilter binary: its stdout must be these bytes
+		if bin := os.Getenv("VERIF_BENCHFILTER"); bin != "" {
+			c.tag("binary")
+			cmd := exec.Command(bin, append([]string{"--", query}, paths...)...) // "--": a query may start with '-'
+			cmd.Stderr = nil
+			out, err := cmd.Output()
+			if err != nil || !bytes.Equal(out, c.buf.Bytes()) {
+				c.binDiff = true
+			}
+		}
 	})
 }
 
@@ -535,6 +579,7 @@ func genFilter(r *hx.Rand) {
 func generate() {
 	r := hx.NewRand(1)
 	apiCorpus()
+	fmtCorpus()
 	for _, t := range textCorpus {
 		runText([]byte(t), "corpus")
 	}
